@@ -17,8 +17,10 @@ def _norm_value(L, v, depth=0):
     if isinstance(v, dict):
         return ["dict", [[repr(k), _norm_value(L, x, depth + 1)] for k, x in v.items()]]
     if isinstance(v, L.terms.Node) or isinstance(v, L.terms.Term):
+        from .lang import quiet_faults
         try:
-            return [type(v).__name__, v.get_sql(L.context.DEFAULT_SQL_CONTEXT)]
+            with quiet_faults():
+                return [type(v).__name__, v.get_sql(L.context.DEFAULT_SQL_CONTEXT)]
         except Exception as e:  # noqa: BLE001
             return [type(v).__name__, "EXC:" + type(e).__name__]
     if v is None or isinstance(v, _PLAIN):
